@@ -1,12 +1,24 @@
 (* JsPrint/Harness.v — correspondence drivers for the printer models (C05). *)
 From Verif Require Import Common.Base Common.Codec Gen.PrattTable JsExpr.Syntax JsExpr.Pratt JsExpr.Harness JsPrint.Print.
 
-(* case: mode(=0) opts ntok tokens...  ->  0 |bytes| bytes  (the JS() text of the parsed program), or the error code *)
+From Verif Require JsPrint.LexBack.
+
+(* every expression of the program passes the separation check of LexBack.v (the hypothesis c06_separated of
+   print_lex_parse_partial): the implementation side answers 1, so a tree that fails the check shows up as a mismatch *)
+Fixpoint stmt_separated (s : stmt) : bool :=
+  match s with
+  | SExpr e => JsPrint.LexBack.c06_separated e
+  | SEmpty => true
+  | SLabel _ v => stmt_separated v
+  end.
+
+(* case: mode(=0) opts ntok tokens...  ->  0 |bytes| bytes sep  (the JS() text of the parsed program and the flag
+   "all expressions are c06_separated"), or the error code *)
 Definition run_jsprint (l : list Z) : list Z :=
   let n := hdz (tlz (tlz l)) in
   let ts := decode_toks (Z.to_nat n) (tlz (tlz (tlz l))) in
   match parse_program ts with
-  | Ok stmts => 0 :: enc_bytes (print_program stmts)
+  | Ok stmts => 0 :: enc_bytes (print_program stmts) ++ [if forallb stmt_separated stmts then 1 else 0]
   | Fail => [1]
   | OutFrag => [3]
   | NoFuel => [4]
